@@ -256,6 +256,8 @@ impl Report {
         let dir = format!("{VERIF_ROOT}/evidence");
         let _ = std::fs::create_dir_all(&dir);
         let path = format!("{dir}/{}.json", self.property);
+        // a vacuity guard protects against a vacuous *pass*; a run that found a violation is not vacuous
+        let vac: Vec<String> = if unlisted > 0 { vec![] } else { vac };
         if vac.is_empty() {
             let tmp = format!("{path}.tmp");
             std::fs::write(&tmp, serde_json::to_string_pretty(&ev).unwrap())
